@@ -66,7 +66,11 @@ namespace BitSerializer::Csv::Detail
 		Convert::Utf::EncodedStreamReadResult ReadNextChunk();
 		std::string_view UnescapeValue(char* beginIt, const char* endIt);
 
+#if defined(BITSERIALIZER_VERIF) && defined(BITSERIALIZER_VERIF_CHUNK_SIZE)
+		Convert::Utf::CEncodedStreamReader<char, BITSERIALIZER_VERIF_CHUNK_SIZE> mEncodedStreamReader;	// verification hook: small chunks
+#else
 		Convert::Utf::CEncodedStreamReader<char> mEncodedStreamReader;
+#endif
 		std::string mDecodedBuffer;
 		const bool mWithHeader;
 		const char mSeparator;
